@@ -33,7 +33,9 @@ ETZ = ("BEGIN:VCALENDAR\r\nVERSION:2.0\r\nPRODID:-//xv//EN\r\n" + B.TZ_BLOCK + "
 # a VFREEBUSY with two FREEBUSY properties
 FB2 = ("BEGIN:VCALENDAR\r\nVERSION:2.0\r\nPRODID:-//xv//EN\r\nBEGIN:VFREEBUSY\r\nUID:fb2\r\nDTSTAMP:20200101T000000Z\r\n"
        "FREEBUSY:20200310T100000Z/20200310T120000Z\r\nFREEBUSY;FBTYPE=BUSY:20200311T090000Z/PT1H\r\nEND:VFREEBUSY\r\nEND:VCALENDAR\r\n").encode()
-BODIES = {"E1": E1, "E2": E2, "E3": E3, "T1": T1, "ETZ": ETZ, "FB2": FB2}
+# properties that are present but "falsy": an empty text value and a zero integer
+EFALSY = B.ics("efalsy", "falsy", extra="LOCATION:\nPRIORITY:0\nSEQUENCE:0", dtstart="20200107T100000Z")
+BODIES = {"E1": E1, "E2": E2, "E3": E3, "T1": T1, "ETZ": ETZ, "FB2": FB2, "EF": EFALSY}
 
 
 def cf(name, inner=""):
@@ -60,6 +62,9 @@ FILTERS = {
     "todo-range": cf("VCALENDAR", cf("VTODO", tr("20200101T000000Z", "20200201T000000Z"))),
     # starts exactly when the TZID event ends (12:00 UTC): must not match it
     "range-after-paris": cf("VCALENDAR", cf("VEVENT", tr("20200310T120000Z", "20200310T140000Z"))),
+    "location-defined": cf("VCALENDAR", cf("VEVENT", pf("LOCATION"))),
+    "priority-defined": cf("VCALENDAR", cf("VEVENT", pf("PRIORITY"))),
+    "location-not-defined": cf("VCALENDAR", cf("VEVENT", pf("LOCATION", "<C:is-not-defined/>"))),
     "freebusy-range": cf("VCALENDAR", cf("VFREEBUSY", tr("20200311T000000Z", "20200312T000000Z"))),
 }
 
@@ -150,7 +155,7 @@ class C10Sys:
     def enabled_ops(self):
         ops = []
         for b in self.cfg.bodies:
-            nm = {"T1": "t.ics", "E3": "c.ics", "ETZ": "z.ics", "FB2": "f.ics"}.get(b, "a.ics")
+            nm = {"T1": "t.ics", "E3": "c.ics", "ETZ": "z.ics", "FB2": "f.ics", "EF": "e.ics"}.get(b, "a.ics")
             ops.append(("put", nm, b))
         for nm in sorted(self.model):
             ops.append(("delete", nm))
@@ -239,13 +244,15 @@ def run(tier, workers=None):
         cfgs = [C10Cfg(0, filters=["vevent", "summary=beta", "range-feb", "todo-not-completed", "summary+no-location"]),
                 C10Cfg(1, filters=["summary=alpha", "range-jan", "todo-range"], bodies=("E1", "E2", "T1")),
                 C10Cfg(0, seed_bad=True, filters=["vevent", "summary-defined"], bodies=("E1",)),
-                C10Cfg(0, filters=["range-after-paris", "freebusy-range", "range-jan"], bodies=("ETZ", "FB2", "E1"))]
+                C10Cfg(0, filters=["range-after-paris", "freebusy-range", "range-jan"], bodies=("ETZ", "FB2", "E1")),
+                C10Cfg(1, filters=["location-defined", "priority-defined", "location-not-defined"], bodies=("EF", "E1"))]
         depth = {0: 3, 1: 3}
     else:
         cfgs = [C10Cfg(0), C10Cfg(1), C10Cfg(2, filters=["vevent", "summary=beta", "range-feb", "todo-not-completed"]),
                 C10Cfg(None, filters=["vevent", "summary=beta", "range-feb"]), C10Cfg(0, seed_bad=True, bodies=("E1", "T1")),
                 C10Cfg(1, front="aio", filters=["summary=alpha", "range-feb", "summary+no-location"]),
-                C10Cfg(1, filters=["range-after-paris", "freebusy-range", "range-jan", "vevent"], bodies=("ETZ", "FB2", "E1"))]
+                C10Cfg(1, filters=["range-after-paris", "freebusy-range", "range-jan", "vevent"], bodies=("ETZ", "FB2", "E1")),
+                C10Cfg(0, filters=["location-defined", "priority-defined", "location-not-defined", "vevent"], bodies=("EF", "E1", "E2"))]
         depth = {}
     tot = {"states": 0, "transitions": 0, "replays": 0, "requests": 0}
     per_cfg = []
